@@ -1,4 +1,5 @@
 import Pyxv.Proofs.ControlsLemmas
+import Pyxv.Model.TableList
 import Pyxv.Proofs.C04
 /-!
 # C04, second half — every body control carries the attributes its type and cells dictate
@@ -551,6 +552,71 @@ theorem controls_aligned (root : Str) (lists : List Str) (rows : List Cells) (se
             rw [body_controls_in_row_order _ ks items hp]
             exact allControls_aligned lists rows 2 cs ks h1 hc
 
+theorem allControlsN_aligned (lists : List Str) : ∀ (rows : List (Nat × Cells)) (cs : List Controls.Ctl)
+    (ks : List (Nat × RowK)), allControlsN lists rows = .ok cs →
+    classifyNum lists (rows.map fun nr => (nr.1, (prep nr.2).1)) = .ok ks → cs.map (·.1) = allRowTags ks := by
+  intro rows
+  induction rows with
+  | nil =>
+    intro cs ks h1 h2
+    simp [allControlsN] at h1; simp [classifyNum] at h2; subst h1; subst h2; rfl
+  | cons r rs ih =>
+    intro cs ks h1 h2
+    obtain ⟨n, r⟩ := r
+    simp only [allControlsN] at h1
+    simp only [List.map_cons, classifyNum] at h2
+    cases hr : rowControls lists n r with
+    | error f => rw [hr] at h1; cases h1
+    | ok c1 =>
+      rw [hr] at h1; simp only [] at h1
+      obtain ⟨k, hk, ht⟩ := rowControls_aligned lists n r c1 hr
+      rw [hk] at h2; simp only [] at h2
+      cases ha : allControlsN lists rs with
+      | error f => rw [ha] at h1; cases h1
+      | ok c2 =>
+        rw [ha] at h1; simp only [] at h1
+        cases hc : classifyNum lists (rs.map fun nr => (nr.1, (prep nr.2).1)) with
+        | error w => rw [hc] at h2; cases h2
+        | ok k2 =>
+          rw [hc] at h2; simp only [] at h2
+          injection h1 with h1; injection h2 with h2
+          subst h1; subst h2
+          simp [allRowTags, ht, ih c2 k2 ha hc]
+
+/-- **One model, table-list groups included** (the pipeline the checks run, `controls.model`): the controls
+    the attribute model emits for the expanded sheet are aligned with the body control list of
+    `TableList.formOutT`. -/
+theorem controls_aligned_tl (root : Str) (lists : List Str) (rows : List Cells) (settings : Cells)
+    (cs : List Controls.Ctl) (o : FormOut) (h1 : allControlsN lists (TableList.sheetRows rows) = .ok cs)
+    (h2 : TableList.formOutT root lists rows settings = .ok o) :
+    cs.map (·.1) = o.ctl.map (·.1) := by
+  unfold TableList.formOutT at h2
+  split at h2
+  · cases h2
+  · rename_i o' ho
+    split at h2
+    · cases h2
+    · injection h2 with h2; subst h2
+      unfold formOutN at ho
+      cases hc : classifyNum lists ((TableList.sheetRows rows).map fun nr => (nr.1, (prep nr.2).1)) with
+      | error w => rw [hc] at ho; simp at ho
+      | ok ks =>
+        rw [hc] at ho; simp only [] at ho
+        cases hp : parseRows ks with
+        | error e => rw [hp] at ho; simp at ho
+        | ok items =>
+          rw [hp] at ho; simp only [] at ho
+          split at ho
+          · simp at ho
+          · split at ho
+            · simp at ho
+            · split at ho
+              · simp at ho
+              · simp at ho; subst ho
+                simp only []
+                rw [body_controls_in_row_order _ ks items hp]
+                exact allControlsN_aligned lists _ cs ks h1 hc
+
 /-! ### exactly one `jr:template` copy per repeat, at every depth -/
 
 mutual
@@ -699,5 +765,21 @@ def exNested : List Item :=
 example : tmplCount (fun _ => true) (instanceOf (k!"data") exNested) = 2 ∧
     tmplCount (· == k!"r2") (instanceOf (k!"data") exNested) = 1 ∧ repCountL (· == k!"r2") exNested = 1 := by
   decide +kernel
+
+-- a table-list group with a label: the generated note and header select appear, appearances are rewritten
+def exTL : List Cells := [
+  [(k!"type", k!"begin group"), (k!"name", k!"t"), (k!"label", k!"T"), (k!"control::appearance", k!"table-list minimal")],
+  [(k!"type", k!"select_one yn"), (k!"name", k!"s1"), (k!"label", k!"S1")],
+  [(k!"type", k!"select_one yn"), (k!"name", k!"s2"), (k!"label", k!"S2"), (k!"control::appearance", k!"w1")],
+  [(k!"type", k!"end group")]]
+
+example : (match allControlsN [k!"yn"] (TableList.sheetRows exTL), TableList.formOutT (k!"data") [k!"yn"] exTL [] with
+    | .ok cs, .ok o => cs.map (·.1) == o.ctl.map (·.1) &&
+        cs == [(k!"group", [(k!"appearance", k!"field-list minimal")]), (k!"input", []),
+               (k!"select1", [(k!"appearance", k!"label")]), (k!"select1", [(k!"appearance", k!"list-nolabel")]),
+               (k!"select1", [(k!"appearance", k!"list-nolabel")])] &&
+        o.body.map xpathStr == [k!"/data/t", k!"/data/t/generated_table_list_label_2",
+          k!"/data/t/reserved_name_for_field_list_labels_3", k!"/data/t/s1", k!"/data/t/s2"]
+    | _, _ => false) = true := by decide +kernel
 
 end Pyxv.C04
